@@ -248,7 +248,10 @@ def regex_pair_corpus():
             for t in REGEX_TEXTS[(i * 2) % 8:][:3] + REGEX_TEXTS[:2]:
                 for p in (first, second):
                     jobs.append(('regex', f'regex({pylit(t)}, {pylit(p)})', bool(re.search(p, t, re.IGNORECASE))))
-        g1, g2 = ('(%s+)' % lo, '(%s+)' % up) if c in 'dw' else ('(%s+)' % up, '(%s+)' % lo)
+        if c == 'b':
+            g1, g2 = '(%su\\w*)' % lo, '(%su\\w*)' % up
+        else:
+            g1, g2 = ('(%s+)' % lo, '(%s+)' % up) if c in 'dw' else ('(%s+)' % up, '(%s+)' % lo)
         for t in REGEX_TEXTS[:4]:
             for p in (g1, g2):
                 m = re.search(p, t, re.IGNORECASE)
@@ -606,6 +609,8 @@ def main(tier):
         law_counts['python-construct'] += 1
         if is_ok(b):
             law_applicable['python-construct'] += 1
+        if b.get('err') == 'SyntaxError':
+            continue            # not a construct CPython compiles (e.g. := in a comprehension iterable)
         if not same_modulo_error_class(a, b):
             law_fail.append(({'law': 'python-construct', 'env': ei, 'exprs': [text], 'trees': None, 'sig': lambda o: None,
                               'check': None}, [a, b], 'differs from CPython evaluating the same construct on plain data'))
